@@ -236,6 +236,46 @@ def run(ctx, report: Report) -> None:
                              f'variable ({", ".join(sorted(walkvars))}) is advanced along the tree nor a tested variable receives a new '
                              f'value: on a node that takes this path (e.g. a missing parent) the walk never ends')
     _spin_rule(ctx, r5, mmod, reach)
+    # ---- R6 ------------------------------------------------------------------------------------------------
+    r6 = report.rule('C08-R6', 'attribute values reach the comparisons normalised (str or list of str)', floor=20)
+    from ..interp import Obj, Raised, call_function
+    from ..miniev import Unsupported
+    from ..tables import NSKey, el_obj, matcher_obj
+    U = 'urn:one'
+    raw = object()          # a value of an arbitrary type, as the bs4 API allows
+    first_bad = None
+    for fn_q, mk_args in (('css_match.CSSMatch.match_attribute_name', lambda el, pre: [el, 'a', pre]),
+                          ('css_match._DocumentNav.get_attribute_by_name', lambda el, pre: [el, 'a', None])):
+        for is_xml in (False, True):
+            for supports in (False, True):
+                for prefix in ('', '*', 'p'):
+                    for key in ('a', NSKey('x:a', U, 'a')):
+                        el = el_obj('e', attrs={key: raw}, is_xml=is_xml)
+                        me = matcher_obj(is_xml=is_xml, is_html=not is_xml, namespaces={'p': U})
+                        stubs = {'css_match.CSSMatch.supports_namespaces': lambda _s=supports: _s,
+                                 'css_match._DocumentNav.normalize_value': lambda v: ('normalised', v)}
+                        try:
+                            got = call_function(ctx, fn_q, mk_args(el, prefix), {}, stubs,
+                                                me if 'CSSMatch' in fn_q else None)
+                        except Raised as e:
+                            got = f'raises {e.exc_name}'
+                        except Unsupported as e:
+                            raise AnalysisError(f'{fn_q}: outside the evaluable fragment: {e}')
+                        ok = got is None or (isinstance(got, tuple) and got[:1] == ('normalised',))
+                        r6.instance({'function': fn_q.split('.')[-1], 'xml': is_xml, 'namespaces': supports, 'prefix': prefix,
+                                     'attribute': str(key), 'result': 'missing' if got is None else ('normalised' if ok else 'RAW')},
+                                    key=f'{fn_q}|{is_xml}|{supports}|{prefix}|{key}', sample_cap=3)
+                        if not ok and first_bad is None:
+                            first_bad = (fn_q, is_xml, supports, prefix, str(key), got)
+    r6.obligation(first_bad is None)
+    if first_bad is not None:
+        fn_q, is_xml, supports, prefix, key, got = first_bad
+        r6.violation(f'{fn_q} raw value', mmod.where(src.func(fn_q)[1]),
+                     f'{fn_q.split(".")[-1]} returns the attribute value as stored in the tree ({"XML" if is_xml else "HTML"} document, '
+                     f'namespaces {"on" if supports else "off"}, selector prefix {prefix!r}, attribute {key!r}) without passing it through '
+                     f'normalize_value: numbers, bytes or nested lists set through the bs4 API reach pattern.match / " ".join and '
+                     f'raise TypeError')
+
 
 
 def _spin_rule(ctx, r5, mmod, reach):
@@ -350,3 +390,4 @@ def spin_scenario(ctx, mod, cls_name, fn, depth=0):
     except (miniev.Unsupported, Exception):  # noqa: BLE001 - no claim
         return None
     return None
+
